@@ -324,3 +324,40 @@ Proof.
   apply (abor_in_body F st w H14 (reachable_ok F st Hre) Ha Hw Hb Hl).
   unfold hole. apply (no_hole_sf _ _ w (sf_wf F w Hs) Hk Hl).
 Qed.
+
+(* ------------------------------------------------------------------ ABOR with ANY number of transfers alive *)
+Lemma abor_busy_unwind : forall F st, alive (ss st) = true -> c_abor F = AbNotDone ->
+  existsb (fun w => negb (terminal (w_stage w))) (ws st) = true ->
+  ws (unwind F (fst (step F st Abor))) = map (ended_w F) (ws st)
+  /\ ss (fst (step F st Abor)) = ss st.
+Proof.
+  intros F st Ha Hab Hb. unfold step. rewrite Ha. simpl. rewrite Hab, Hb. simpl.
+  unfold unwind, map_cancel. simpl. rewrite map_map. split; reflexivity.
+Qed.
+
+(* "stops the transfer and closes its data connection, leaves only a prefix": for every reachable live state with
+   ANY number of workers of which at least one is not finished, after ABOR and the unwinding every worker is
+   terminal and holds neither its data stream nor a file, what it had moved is unchanged, and the session record is
+   untouched *)
+Theorem abor_stops_all_repaired : forall F st,
+  repaired14 F = true -> reachable F st -> alive (ss st) = true ->
+  existsb (fun w => negb (terminal (w_stage w))) (ws st) = true ->
+  Forall (good_w F) (ws (unwind F (fst (step F st Abor))))
+  /\ Forall2 same_data (ws st) (ws (unwind F (fst (step F st Abor))))
+  /\ ss (unwind F (fst (step F st Abor))) = ss st.
+Proof.
+  intros F st Hr Hre Ha Hb. destruct (repaired14_inv F Hr) as (H14 & Hs & Hab & _).
+  destruct (abor_busy_unwind F st Ha Hab Hb) as [Ew Es]. rewrite Ew.
+  pose proof (reachable_clean F st Hs Hre) as C. unfold clean in C. apply andb_prop in C; destruct C as [_ Hws].
+  rewrite forallb_forall in Hws.
+  assert (G : forall w, In w (ws st) -> good_w F (ended_w F w) /\ same_data w (ended_w F w)).
+  { intros w Hin. destruct (wclean_inv F w (Hws w Hin)) as [Hk Hl].
+    destruct (ended_w_good F w Hk Hl) as (A & B & _); [|auto].
+    unfold hole. apply (no_hole_sf _ _ w (sf_wf F w Hs) Hk Hl). }
+  split; [|split].
+  - apply Forall_forall. intros x Hin. apply in_map_iff in Hin. destruct Hin as (w & <- & Hin). apply (G w Hin).
+  - clear - G. induction (ws st) as [|a l IH]; simpl; constructor.
+    + apply (G a). left; reflexivity.
+    + apply IH. intros w Hin. apply G. right; assumption.
+  - exact Es.
+Qed.
